@@ -94,6 +94,9 @@ def _resume(payload):
 def run_child(pid, cfg, capsule, op, rng_state, rest_ops, budget, run_seed):
     payload = _payload(pid, cfg, capsule, op, rng_state, rest_ops, budget, run_seed)
     mode = op.get("mode", "exec")
+    forced = os.environ.get("EGSIM_RESTART_MODE")
+    if forced and mode != "inproc":
+        mode = forced  # self-test only: same log, different kind of fresh process
     if mode == "inproc":
         return _resume(payload)
     if mode == "zygote":
@@ -279,6 +282,9 @@ def call_rpc(mode, target, payload, hashseed=0):
     payload = dict(payload)
     payload["rpc"] = target
     payload.setdefault("op", {"hashseed": hashseed})
+    forced = os.environ.get("EGSIM_RESTART_MODE")
+    if forced and mode != "inproc":
+        mode = forced
     if mode == "inproc":
         return _resume(payload)
     if mode == "zygote":
